@@ -86,11 +86,13 @@ Triples(F) == {<<f, g, h>> : f \in {x \in F : Complete(x)}, g \in {x \in F : Com
 \* predicate rather than one union: TLC's set union is quadratic on sets of this size.)
 CONSTANT Mode    \* "quick" | "thorough" | "overflow"
 SingleSet == IF Mode = "overflow" THEN {} ELSE Full
-PairSet   == CASE Mode = "quick" -> Reduced [] Mode = "thorough" -> Full [] OTHER -> Tiny
+PairSet   == CASE Mode = "quick" -> Reduced [] OTHER -> Tiny   \* thorough: Full x Reduced and Reduced x Full
 TripleSet == CASE Mode = "thorough" -> Small [] OTHER -> Mini
 
 MCInit == \/ InitWith(Singles(SingleSet))
-          \/ InitWith(Pairs(PairSet, PairSet))
+          \/ IF Mode = "thorough"
+             THEN InitWith(Pairs(Full, Reduced)) \/ InitWith(Pairs(Reduced, Full))
+             ELSE InitWith(Pairs(PairSet, PairSet))
           \/ InitWith(Triples(TripleSet))
 
 ASSUME \A f \in Full \cup Reduced \cup Tiny \cup Small \cup Mini : IsFrame(f)
